@@ -565,3 +565,85 @@ def check(facts, rep, tier, cfg):
             else:
                 rep.bad("C01.R2", "refresh/%s" % fname, "", "%s does not refresh the client-id entry: an active client is pruned and the replies still "
                                                             "addressed to its old flow id are dropped" % what)
+    # ---- R13 the outgoing socket's address family is the family of the very address that is then dialled
+    if has_server:
+        rep.rule("C01.R13", "server: a family-specific outgoing socket (TcpSocket::new_v4/new_v6, UdpSocket::bind on an (Ipv4Addr|Ipv6Addr, port)) "
+                            "is created only under a test of the address family (SocketAddr::is_ipv4/is_ipv6, IpAddr::is_ipv4/is_ipv6 of its ip(), "
+                            "or a match on its V4/V6 variant) of the unmodified address that is returned as the target to dial")
+        k13 = 0
+        for b in crate.bodies:
+            if "/src/server/" not in b.file:
+                continue
+            sites = []
+            for bi, t in b.calls():
+                c = callee(t)
+                if not c:
+                    continue
+                fam = None
+                if c["name"] in ("new_v4", "new_v6") and ("TcpSocket" in c["path"] or "UdpSocket" in c["path"] or "Socket" in c["path"]):
+                    fam = 4 if c["name"] == "new_v4" else 6
+                elif c["name"].startswith("bind") and "Socket" in c["path"]:
+                    if "Ipv4Addr" in c["path"] and "Ipv6Addr" not in c["path"]:
+                        fam = 4
+                    elif "Ipv6Addr" in c["path"] and "Ipv4Addr" not in c["path"]:
+                        fam = 6
+                if fam:
+                    sites.append((bi, fam, c["path"]))
+            if not sites:
+                continue
+            tr = Tracer(facts, b)
+            rep.analysed(b)
+            # the target returned next to the socket: SocketAddr-typed operands of tuple aggregates
+            targets = set()
+            for bi in range(len(b.blocks)):
+                for s in b.blocks[bi]["stmts"]:
+                    if s["k"] == "Assign" and s["rv"]["k"] == "Aggregate" and s["rv"]["agg"]["a"] == "Tuple":
+                        for o in s["rv"]["ops"]:
+                            p = o.get("p")
+                            if p and not p.get("proj") and norm_ty_is_sockaddr(b, p["l"]):
+                                targets.add(fmt(strip(tr.operand(o))))
+
+            def subject(n):
+                n = strip(n)
+                while n.kind == "call" and n[6] == "ip" and "SocketAddr" in (n[2] or "") and n[3]:
+                    n = strip(n[3][0])
+                return n
+
+            for bi, fam, path in sites:
+                k13 += 1
+                where = "%s (%s)" % (loc_str(b.term(bi)["loc"]), b.path)
+
+                def want(g, fam=fam):
+                    if g.kind == "bool" and g.pred.kind == "call" and g.pred[6] in ("is_ipv4", "is_ipv6") and g.pred[3]:
+                        if not ("SocketAddr" in (g.pred[2] or "") or "IpAddr" in (g.pred[2] or "")):
+                            return None
+                        sub = subject(g.pred[3][0])
+                        if any(x.kind == "call" for x in walk(sub)):
+                            return None
+                        if targets and fmt(sub) not in targets:
+                            return None
+                        v4 = (g.pred[6] == "is_ipv4")
+                        return {v4 == (fam == 4)}
+                    if g.kind == "discr" and g.adt and g.adt.endswith("SocketAddr") or (g.kind == "discr" and g.adt and g.adt.endswith("IpAddr")):
+                        sub = subject(g.pred)
+                        if any(x.kind == "call" for x in walk(sub)):
+                            return None
+                        if targets and fmt(sub) not in targets:
+                            return None
+                        return {"V4" if fam == 4 else "V6"}
+                    return None
+                from muxcommon import edge_literals_dominating
+                lits = edge_literals_dominating(facts, b, tr, bi, want)
+                if lits:
+                    rep.ok("C01.R13", "family/%s/v%d" % (b.path.split("::{")[0], fam), where, "created under the family test of the dialled address")
+                else:
+                    rep.bad("C01.R13", "family/%s/v%d" % (b.path.split("::{")[0], fam), where,
+                            "`%s` (an IPv%d socket) is not created under a test that the unmodified target address -- the one returned and "
+                            "then dialled -- is IPv%d: when the test looks at a converted address (e.g. an IPv4-mapped address made "
+                            "canonical) the socket and the target belong to different families and connect/send_to fails, so the "
+                            "target is never reached" % (path, fam, fam))
+        rep.floor("C01.R13", "family-specific outgoing sockets in the server", k13, 4)
+
+
+def norm_ty_is_sockaddr(b, l):
+    return (b.locals[l].get("s") or "").endswith("net::SocketAddr")
